@@ -546,6 +546,8 @@ class Component(CaselessDict):
     def __eq__(self, other):
         if not isinstance(other, Component):
             return False
+        if self.name != other.name:
+            return False
         if len(self.subcomponents) != len(other.subcomponents):
             return False
 
